@@ -245,6 +245,7 @@ def rule_capture(ctx, rep):
     tb = model.func('block_tokenizer.tokenize_block')
     rep.instance('R-CAPTURE')
     n_paths = 0
+    n_entries = 0
     bad = None
     for consume in (1, 2):
         def run(oracle, consume=consume):
@@ -268,18 +269,20 @@ def rule_capture(ctx, rep):
             if items is None:
                 items = []
             for entry in items:
+                n_entries += 1
                 tt, result, ln = entry
                 first = result[2]
                 idx = line_index(first.prov) if isinstance(first, AbsStr) else None
                 ok = idx is not None and ln == S.add(Aff({}, idx))
                 if not ok and bad is None:
                     bad = (idx, ln)
-    rep.obligation('R-CAPTURE', bad is None, {'paths': n_paths, 'types': 'two abstract token types, readers consuming 1-2 lines'})
+    rep.obligation('R-CAPTURE', bad is None, {'paths': n_paths, 'blocks_checked': n_entries, 'types': 'two abstract token types, readers consuming 1-2 lines'})
     if bad is not None:
         rep.find('R-CAPTURE', 'block_tokenizer.tokenize_block', 'line_number-capture',
                  'a block whose first line is line %s of the input (number S+%s) is recorded with line number %r'
                  % (bad[0], bad[0], bad[1]), loc(model.unit_of(tb), tb.node))
-    rep.floor('R-CAPTURE', n_paths, 8)
+    rep.floor('R-CAPTURE', n_entries, 8)
+    rep.extra['capture_entries_checked'] = n_entries
 
 
 def rule_origin(ctx, rep):
